@@ -145,7 +145,12 @@ struct net : public verif::listener
     void theory_conflict(const theory &th, const std::vector<lit> &ls) override
     {
         std::string n = &th == &lra ? "lra" : &th == &idl ? "idl" : &th == &rdl ? "rdl" : &th == &ov ? "ov" : "other";
-        ev("{\"h\":\"tconf\",\"th\":\"" + n + "\",\"l\":" + sLits(ls) + "}");
+        // a conflict clause consists of literals that are false right now: report the ones that are not
+        std::vector<lit> nf;
+        for (const auto &p : ls)
+            if (sat.value(p) != False)
+                nf.push_back(p);
+        ev("{\"h\":\"tconf\",\"th\":\"" + n + "\",\"l\":" + sLits(ls) + ",\"nf\":" + sLits(nf) + "}");
     }
     void lra_slack(const var &x, const lin &l) override
     {
